@@ -881,6 +881,10 @@ def resolve_limit(W, acc, t):
     that every caller binds to a constant)."""
     if t[0] == "const" and isinstance(t[2], int):
         return t[2]
+    if P.const_only(t):
+        v_ = _const_int(t)
+        if v_ is not None:
+            return v_
     if t[0] == "upvar" and acc.helper is not None:
         args = acc.helper[2]
         if t[1] < len(args) and args[t[1]][0] == "const" and isinstance(args[t[1]][2], int):
@@ -980,6 +984,32 @@ def c15_typed(rep, W, rule="C15.TYPED"):
                "handler parameters: %s; the path id must be extracted as web::Path<Uuid> (malformed ids are refused by actix with 4xx)" % tys, where(f))
 
 
+def _const_int(t, depth=0):
+    if depth > 8:
+        return None
+    if t[0] == "const" and isinstance(t[2], int) and not isinstance(t[2], bool):
+        return t[2]
+    if t[0] == "field" and t[2] == "0":
+        return _const_int(t[1], depth + 1)
+    if t[0] == "binop" and t[1].replace("WithOverflow", "").replace("Unchecked", "") in ("Add", "Sub", "Mul"):
+        a, b = _const_int(t[2], depth + 1), _const_int(t[3], depth + 1)
+        if a is None or b is None:
+            return None
+        op = t[1].replace("WithOverflow", "").replace("Unchecked", "")
+        return a + b if op == "Add" else a - b if op == "Sub" else a * b
+    return None
+
+
+def _const_arith_ok(cond):
+    """cond is the overflow flag of a checked +,-,* whose operands are non-negative constants with a result below 2^31 (fits
+    every integer type the request path uses): the assertion cannot fire."""
+    if cond[0] == "field" and cond[2] == "1" and cond[1][0] == "binop" and cond[1][1].endswith("WithOverflow"):
+        v = _const_int(("field", cond[1], "0"))
+        a, b = _const_int(cond[1][2]), _const_int(cond[1][3])
+        return v is not None and a is not None and b is not None and a >= 0 and b >= 0 and 0 <= v < 2 ** 31
+    return False
+
+
 def c15_nopanic(rep, W, rule="C15.NOPANIC"):
     bodies = []
     for module in WD.HANDLER_MODULES:
@@ -1006,6 +1036,8 @@ def c15_nopanic(rep, W, rule="C15.NOPANIC"):
                 continue
             t = blk["term"]
             if t["k"] == "assert" and not t["msg"].startswith("Resumed"):
+                if t["msg"].startswith("Overflow:") and t["cond"]["k"] != "const" and _const_arith_ok(W.prov(b).operand_term(t["cond"])):
+                    continue      # arithmetic on constants that does not overflow (`100 * 1024 * 1024` in a const fn called at run time)
                 asserts.append((t["msg"], t["span"]["line"]))
         # the only arithmetic assert allowed: len(body) + len(chunk), two lengths each <= isize::MAX
         okas = all(msg == "Overflow:Add" for msg, _ in asserts) and len(asserts) <= 1
